@@ -44,6 +44,8 @@ FILES = {
     "strings.lbl": b"a = \"it's\"\nb = 'say \"hi\"'\nc = NULL\nd = \"END\"\ne = \"multi\n  line\"\nEND\n",
     "garbage.lbl": b"= = ( }\n",
     "leap.lbl": b"t = 23:59:60\nEND\n",
+    # a UTF-8 byte order mark in front of the label
+    "bom.lbl": b"\xef\xbb\xbfa = 1\nb = 2\nEND\n",
     # names that are also shell patterns matching a neighbour with another verdict
     "frame[2].lbl": b"a = 1\nEND\n", "frame2.lbl": b"= = ( }\n",
     "star*.lbl": b"= = (\n", "starx.lbl": b"a = 1\nEND\n",
